@@ -10,7 +10,7 @@ def sym_to_json(t):
     syms = []
     for s in t.get_symbols():
         bits = (1 if s.is_assigned() else 0) | (2 if s.is_parameter() else 0) | (4 if s.is_global() else 0) | \
-               (8 if s.is_declared_global() else 0) | (16 if s.is_nonlocal() else 0) | (32 if s.is_free() else 0)
+               (8 if s.is_declared_global() else 0) | (16 if s.is_nonlocal() else 0) | (32 if s.is_free() else 0) | (64 if s.is_imported() else 0)
         syms.append([s.get_name(), bits])
     isfn = isinstance(t, symtable.Function)
     iscls = isinstance(t, symtable.Class)
